@@ -601,11 +601,17 @@ Definition oeq (a b : option string) : bool :=
 Definition files_eqb (a b : list (string * string)) : bool :=
   (forallb (fun e => oeq (get b (fst e)) (Some (snd e))) a && forallb (fun e => oeq (get a (fst e)) (Some (snd e))) b)%bool.
 Definition dirs_eqb (a b : list string) : bool := (forallb (fun d => mem d b) a && forallb (fun d => mem d a) b)%bool.
-(* which part of a case disagrees: 0 = agrees, 1 = effects differ from the traced syscalls, 2 = files differ, 3 = dirs differ *)
+(* which part of a case disagrees: 0 = agrees, 4 = a traced syscall lies outside the model's write set of the designated
+   budget, 1 = effects differ from the traced syscalls, 2 = files differ, 3 = dirs differ *)
+(* the budget designated by the typed config path: computed by the model from the path components *)
+Definition dsg (base cwd : list string) (ab : bool) (arg : list string) : option string :=
+  match designate base cwd ab arg with Some r => Some r | None => Some "?not-a-config-dir-of-this-budget?" end.
 Definition verdict (c : oracle * cmd * state * list (nat * string * string) * state) : nat :=
   let '(o, cm, pre, ops, post) := c in
   let '(st', es) := run_log o cm pre in
-  if negb (ops_eqb (map erase es) ops) then 1
+  let w := write_set o cm pre in
+  if negb (forallb (fun op => let '(k, p, q) := op in op_within w k p q) ops) then 4
+  else if negb (ops_eqb (map erase es) ops) then 1
   else if negb (files_eqb (files st') (files post)) then 2
   else if negb (dirs_eqb (dirs st') (dirs post)) then 3 else 0.
 Fixpoint failing (i : nat) (l : list _) : list (nat * nat) :=
@@ -613,14 +619,23 @@ Fixpoint failing (i : nat) (l : list _) : list (nat * nat) :=
 '''
 
 
-def coq_cmd(spec, dirs=None):
+def coq_cmd(spec, dirs=None, bdir=None):
     k = spec['k']
     if k == 'up':
         out = 'None' if not spec['out'] else f'(Some ({cq(spec["out"][0])}, {cq(spec["out"][1])}))'
         fm = {'html': 'FHtml', 'json': 'FJson', 'markdown': 'FMarkdown', 'summary': 'FSummary'}[spec['fmt']]
         b = lambda x: 'true' if x else 'false'
         expl, root = designated_root(spec, dirs if dirs is not None else [spec.get('cfgrel')])
-        cfg = f'(Some {cq(spec["cfgrel"][:-len("config")])})' if expl else 'None'
+        cfg = 'None'
+        if expl:
+            # the model resolves the spelling itself: components of the budget dir, of the working directory, of the argument
+            ent = cmd_entry(spec)
+            typed = (ent['env'].get('TALLY_CONFIG') if ent['env'] else None) or ent['argv'][-1]
+            typed = typed.replace('{B}', bdir or '/B').replace('{N}', os.path.basename(bdir or '/B'))
+            base = [c for c in (bdir or '/B').split('/') if c]
+            cwdc = [c for c in os.path.normpath(os.path.join(bdir or '/B', ent['cwd'])).split('/') if c]
+            cl = lambda xs: '[' + '; '.join(cq(x) for x in xs) + ']'
+            cfg = f'(dsg {cl(base)} {cl(cwdc)} {"true" if typed.startswith("/") else "false"} {cl(typed.split("/"))})'
         return f'(Up {cfg} {b(spec["migrate"])} {b(spec["embedded"])} {fm} {out})'
     if k == 'inspect':
         return f'(Inspect {cq(spec["file"])})'
@@ -680,7 +695,7 @@ def coq_case(spec, step, starters, it):
          f'starter_settings := {it.ref(starters["settings"])}; starter_merchants := {it.ref(starters["merchants"])}; '
          f'starter_views := {it.ref(starters["views"])}; starter_gitignore := {it.ref(starters["gitignore"])} |}}')
     ops = '; '.join(f'({OPK.get(k, 9)}, {cq(p)}, {cq(q)})' for k, p, q in step['ops'])
-    return f'({o}, {coq_cmd(spec, step["pre"]["dirs"])}, {coq_state(step["pre"], it)}, [{ops}], {coq_state(step["post"], it)})'
+    return f'({o}, {coq_cmd(spec, step["pre"]["dirs"], step.get("bdir"))}, {coq_state(step["pre"], it)}, [{ops}], {coq_state(step["post"], it)})'
 
 
 def model_check(items, starters, name='C20/cases'):
@@ -904,7 +919,7 @@ def main(tier):
             i, v = mb[0]
             sp, stp, ci, si = items[i]
             broken.append({'kind': 'broken-correspondence', 'obligation': 'model_vs_impl(C20.Model.run_log, tally CLI under strace)',
-                           'detail': {'what_differs': {1: 'effects vs traced syscalls', 2: 'files after the command', 3: 'directories after the command'}[v],
+                           'detail': {'what_differs': {1: 'effects vs traced syscalls', 2: 'files after the command', 3: 'directories after the command', 4: 'a traced syscall lies outside the write set (Coq write_set of the designated budget)'}[v],
                                       'command': stp['argv'], 'observed_ops': stp['ops'], 'rc': stp['rc'], 'stderr': stp['stderr'][-300:],
                                       'budget_before': stp['pre']['files'], 'dirs_before': stp['pre']['dirs'],
                                       'files_after': sorted(stp['post']['files']), 'n_disagreements': len(mb),
